@@ -182,4 +182,28 @@ theorem C05_originLoop_translated (ext : Ext) (credentialed pnaAny tolInsecure t
 
 #print axioms C05_originLoop_translated
 
+
+/-! ### The hand-modelled rest of config.go
+
+Next to the translated loop bodies and loop-free validators, the model of config.go keeps by hand: the prologue and the
+epilogue of each list validator (`len(names) == 0`, the declarations, `errors.Join(errs...)`, the assignments into `icfg` —
+`Validate.methods`, `requestHeaders`, `responseHeaders`, `origins`), the orchestration of `newInternalConfig` (the order of the
+validators = the order of `Validate.allErrs`; the flags `validateOrigins` reads are copied before it runs; `nil` is returned
+with the error) and `newConfig` (C06).  Their text is fingerprinted on every run (`cors_cfgSkeletons`: SHA-256 of the text with the loops replaced by `<loop>`; Gen/Facts.lean
+carries today's texts in the comment of that fact) and pinned here to the fingerprints of the text the model was written from; the differential suites tie their meaning. -/
+
+def auditedCfgSkeletons : List Bytes := [
+  Spec.b "validateOrigins|0303a87f81b11c61c232c8ff",
+  Spec.b "validateMethods|b522981c75af1f5548c1a2b1",
+  Spec.b "validateRequestHeaders|87c29ec5e31706f15eea92b3",
+  Spec.b "validateResponseHeaders|df585120ce1a8aa18c6f7933",
+  Spec.b "newInternalConfig|420009560347ad264070d6ad",
+  Spec.b "newConfig|0b7058a57d97f5fe5a297b39"
+]
+
+/-- **C05 (config skeletons).** -/
+theorem C05_cfg_skeletons : Facts.cors_cfgSkeletons = auditedCfgSkeletons := by decide +kernel
+
+#print axioms C05_cfg_skeletons
+
 end Cors
